@@ -117,9 +117,11 @@ unsafe impl GlobalAlloc for Alloc {
             if result.is_null() {
                 self.used.fetch_sub(new_size, Ordering::Release);
             } else {
-                // A grown block can raise the usage to a new peak.
-                let used = self.used.fetch_sub(old_size, Ordering::Release) - old_size;
-                self.max.fetch_max(used, Ordering::Relaxed);
+                self.used.fetch_sub(old_size, Ordering::Release);
+                // A grown block can raise the usage to a new peak. Use the
+                // value this reservation was admitted with, so that charges
+                // other threads are about to roll back are not recorded.
+                self.max.fetch_max(new_used - old_size, Ordering::Relaxed);
             }
             result
         } else {
